@@ -290,7 +290,7 @@ func GenRule(t *rapid.T, kind string, o GenOpt) RS {
 	case "rlimit":
 		f["Key"] = pick(t, "key", poolN(o, reqRlimitKeys, 4))
 		f["Op"] = "<="
-		f["Value"] = pick(t, "value", []string{"0", "1024", "infinity", "5"})
+		f["Value"] = pick(t, "value", []string{"0", "1024", "infinity", "5", "900", "1000", "1M", "100", "0100", "9", "10", "1K", "2G"})
 	case "all":
 	default:
 		panic("GenRule: unknown kind " + kind)
